@@ -487,7 +487,8 @@ Definition sub_id {S F} (s : sub S F) : Z :=
   | InfoDst _ => ID_INFO_DST | InfoReply _ _ _ => ID_INFO_REPLY | InfoSrc _ _ _ => ID_INFO_SRC
   | InfoTs _ _ _ => ID_INFO_TS | NackFrag _ _ _ _ _ => ID_NACK_FRAG | Pad => ID_PAD
   end.
-(* the flag lists handed to SubmessageHeaderWrite::new (INFO_REPLY passes &[]) *)
+(* the flag lists handed to SubmessageHeaderWrite::new (INFO_REPLY passes its multicast flag
+   since fix 4006ca4) *)
 Definition sub_flags {S F} (s : sub S F) : list bool :=
   match s with
   | AckNack f _ _ _ _ => [f]
@@ -495,6 +496,7 @@ Definition sub_flags {S F} (s : sub S F) : list bool :=
   | DataFrag q k n _ _ _ _ _ _ _ _ _ => [q; k; n]
   | Heartbeat f l _ _ _ _ _ => [f; l]
   | InfoTs i _ _ => [i]
+  | InfoReply m _ _ => [m]
   | _ => []
   end.
 (* write_submessage_elements_into_bytes *)
@@ -650,8 +652,8 @@ Definition wf_subb (s : usub) : bool :=
   end.
 Definition wf_hdrb (h : hdr) : bool := arrb 2 (h_version h) && arrb 2 (h_vendor h) && arrb 12 (h_prefix h).
 
-(* ---------------------------------------- the two 16-bit length truncation classes
-   and the INFO_REPLY flag that is never written (recorded findings of C08) *)
+(* ---------------------------------------- the 16-bit length truncation class (recorded
+   finding of C08): a submessage body or a padded parameter longer than 65535 bytes *)
 Definition param_too_long (p : param) : bool := 65535 <? len (p_val p) + pad_len (len (p_val p)).
 Definition qos_of (s : usub) : list param :=
   match s with
@@ -663,8 +665,6 @@ Definition body_len (s : usub) : Z :=
   match build_sub s with Ok p => len (enc_body true p) | _ => 0 end.
 Definition C08_known_len (s : usub) : bool :=
   (65535 <? body_len s) || existsb param_too_long (qos_of s).
-Definition C08_known_reply (s : usub) : bool :=
-  match s with InfoReply true _ _ => true | _ => false end.
 
 (* ------------------------------------------------ oracle: length fields exact *)
 (* walk the encoded submessages: ids in order, every octets_to_next_header lands exactly
